@@ -1,8 +1,99 @@
-(** C18 — property theorems only. *)
+(** C18 — property theorems only.  Each is closed by [exact] of a lemma proved in Proofs*.v and
+    followed by [Print Assumptions].
+
+    Reading: [handle e ch w st] is ConsensusManager.Receive(chID, peer, bytes) on the decoded
+    structure [w] of the bytes, with [st] the peer's PeerState (None after RemovePeer) and [e] what
+    the handler reads from the node.  [env_ok]: the node's validator counts are within
+    MaxVotesCount and its own vote array is well-formed; [wire_typed]: the uint32 fields of the
+    .proto are non-negative; [st_ok]: every bit array in the peer state has exactly the words its
+    bits need (true of NewPeerState, preserved by every handler: C18_state_invariant). *)
 From Coq Require Import List ZArith NArith Bool.
-From Kardia Require Import C18.Model C18.Proofs Generated.C18Facts.
+From Kardia Require Import C18.Model C18.ProofsBits C18.Proofs Generated.C18Facts.
+Import ListNotations.
 Local Open Scope Z_scope.
 
-Theorem C18_bc_locks_balanced : forall m c, bc_receive m c <> LockLeak.
+(** no delivery panics — for every channel id, every decoded structure, every node state *)
+Theorem C18_no_crash :
+  forall e ch w st, env_ok e -> wire_typed w -> st_ok st -> fst (handle e ch w st) <> Crash.
+Proof. exact handle_no_crash. Qed.
+Print Assumptions C18_no_crash.
+
+(** no handler returns with a mutex held (PeerState.mtx, ConsensusState.mtx) *)
+Theorem C18_locks_balanced :
+  forall e ch w st, env_ok e -> wire_typed w -> st_ok st -> fst (handle e ch w st) <> LockLeak.
+Proof. exact handle_no_leak. Qed.
+Print Assumptions C18_locks_balanced.
+
+(** block-sync Receive releases its read lock on every path (2cdb1a0); the old code did not *)
+Theorem C18_bc_locks_balanced : forall m conv_ok, bc_receive m conv_ok <> LockLeak.
 Proof. exact bc_locks_balanced. Qed.
 Print Assumptions C18_bc_locks_balanced.
+
+Theorem C18_bc_lock_leak_before_repair : bc_receive_old (BBlockResp true) false = LockLeak.
+Proof. exact bc_old_leaks. Qed.
+Print Assumptions C18_bc_lock_leak_before_repair.
+
+(** allocation: no bit-array allocation of a handler exceeds the limit, whatever sizes the
+    message claims (constant bound: every array stays within MaxVotesCount bits) *)
+Theorem C18_alloc_bound :
+  forall e ch w st n, env_ok e -> wire_typed w -> st_ok st -> fst (handle e ch w st) <> Alloc n.
+Proof. exact handle_no_alloc. Qed.
+Print Assumptions C18_alloc_bound.
+
+(** the invariant behind the three statements above, over whole delivery sequences *)
+Theorem C18_state_invariant :
+  forall ds st, st_ok st -> Forall (fun d => env_ok (fst (fst d)) /\ wire_typed (snd d)) ds ->
+    Forall (fun o => o = Accepted \/ o = Rejected) (fst (run st ds)) /\ st_ok (snd (run st ds)).
+Proof. exact run_good. Qed.
+Print Assumptions C18_state_invariant.
+
+(** every bit array that MsgFromProto lets through is consistent and within bounds *)
+Theorem C18_validated_arrays_wellformed :
+  forall w m, wire_typed w -> from_proto w = Some m -> msg_ok m.
+Proof. exact from_proto_ok. Qed.
+Print Assumptions C18_validated_arrays_wellformed.
+
+(** the bit-array operations on well-formed arrays of ANY two sizes *)
+Theorem C18_bitarray_ops_total :
+  forall a o, wf_oba a -> wf_oba o ->
+    safe wf_oba (sub_ a o) /\ safe wf_oba (or_ a o) /\ wf_oba (update_ a o).
+Proof. intros a o Ha Ho. exact (conj (sub_safe a o Ha Ho) (conj (or_safe a o Ha Ho) (update_wf a o Ha))). Qed.
+Print Assumptions C18_bitarray_ops_total.
+
+(** gossip side (a panic there kills the node): PickVoteToSend and the gossipDataRoutine expression *)
+Theorem C18_gossip_votes_no_crash :
+  forall p v, wf_prs p -> vs_ok v ->
+    (fst (fst (pick_vote p v)) = PickNone \/ fst (fst (pick_vote p v)) = PickSome) /\ wf_prs (snd (fst (pick_vote p v))).
+Proof. exact pick_vote_no_crash. Qed.
+Print Assumptions C18_gossip_votes_no_crash.
+
+Theorem C18_gossip_data_no_crash :
+  forall p hh ours, wf_prs p -> wf_oba ours ->
+    fst (gossip_data p hh ours) = PickNone \/ fst (gossip_data p hh ours) = PickSome.
+Proof. exact gossip_data_no_crash. Qed.
+Print Assumptions C18_gossip_data_no_crash.
+
+(** the validation is what the statements rest on: with an array that ValidateBasic refuses since
+    8b6016a already in the peer state, one HasVote panics *)
+Theorem C18_no_crash_refuted_without_validation :
+  fst (handle env1 chan_state (WHV 1 1 prevote_type 0) (Some prs_bad)) = Crash.
+Proof. exact unvalidated_array_crashes. Qed.
+Print Assumptions C18_no_crash_refuted_without_validation.
+
+(** well-formed messages survive encode/decode unchanged *)
+Theorem C18_wire_roundtrip : forall m, msg_wellformed m -> from_proto (to_wire m) = Some m.
+Proof. exact wire_roundtrip. Qed.
+Print Assumptions C18_wire_roundtrip.
+
+(** framing: a delivered message never exceeds its channel's RecvMessageCapacity *)
+Theorem C18_frame_capacity :
+  forall cfg recving f evs r' alive ch total cap,
+    frame_step cfg recving f = (evs, r', alive) -> In (FRecv ch total) evs ->
+    lookup ch (c_caps cfg) = Some cap -> total <= cap.
+Proof. exact frame_step_cap. Qed.
+Print Assumptions C18_frame_capacity.
+
+(** block-sync Receive model: accepted or rejected, nothing else *)
+Theorem C18_bc_no_crash : forall m conv_ok, bc_receive m conv_ok = Accepted \/ bc_receive m conv_ok = Rejected.
+Proof. exact bc_no_crash. Qed.
+Print Assumptions C18_bc_no_crash.
